@@ -374,6 +374,12 @@ def _mgr_tfs(sc, names):
 def record(sc):
     tfs = [c.timeframe for c in sc["inds"] + sc.get("late", [])] + [sc.get("hex", {}).get("timeframe")]
     base = base_for([t for t in tfs if t])
+    if sc.get("base"):
+        # a chosen calendar day (midnight); only used with timeframes that divide a day
+        from datetime import datetime as _dt
+
+        base = _dt.fromisoformat(sc["base"])
+        assert all(86400 % tf_seconds(t) == 0 for t in tfs if t), "base day needs day-dividing timeframes"
     ses = Session(sc, base)
     snaps = []          # per event: (event dict, {manager name: projected candles})
     consumed = 0
